@@ -26,6 +26,11 @@ fn main() {
             let bytes = unhex(h);
             let r = std::panic::catch_unwind(|| {
                 let (m, _) = Model::read_slice(&bytes).map_err(|e| format!("{e}"))?;
+                // the model file format does not depend on the feature set either: re-serialising what was
+                // read gives the same bytes in every build
+                if m.to_vec().map_or(true, |v| v != bytes) {
+                    return Err("model-bytes-differ-after-reread".to_string());
+                }
                 Predictor::new(m, with_tags).map_err(|e| format!("{e}"))
             });
             pred = None;
